@@ -129,7 +129,28 @@ func vsymC37UpstreamReads(text string) (topics []string, everyTopic bool) {
 	if err != nil {
 		return nil, false // the upstream answers with a parse error and reads nothing
 	}
-	return queryTopics(parsed)
+	return vsymC37Topics(parsed)
+}
+
+// the harness's own reading of a parsed query (not the proxy's queryTopics, which is under test)
+func vsymC37Topics(q kafsql.Query) ([]string, bool) {
+	switch q.Type {
+	case kafsql.QueryShowTopics:
+		return nil, true
+	case kafsql.QueryExplain:
+		if q.Explain == nil {
+			return nil, false
+		}
+		return vsymC37Topics(*q.Explain)
+	}
+	var out []string
+	if q.Topic != "" {
+		out = append(out, q.Topic)
+	}
+	if q.JoinTopic != "" {
+		out = append(out, q.JoinTopic)
+	}
+	return out, false
 }
 
 func vsymC37Query(tag string) string {
@@ -142,11 +163,14 @@ func vsymC37Query(tag string) string {
 		"select * from orders o" + pad + "join secret s on o._key = s._key within 10m last 1h",
 		"select * from orders o" + pad + "join orders s on o._key = s._key within 10m last 1h",
 		"explain select * from" + pad + "secret last 1h",
+		"explain select * from orders o join secret s on o._key = s._key within 10m last 1h",
 		"describe secret",
 		"show partitions from secret",
 		"show topics",
 		"set x = 1",
 		"select * from information_schema.tables",
+		// the upstream treats any text that mentions a catalog schema as a catalog query
+		"select * from orders where _key = 'pg_catalog.pg_tables' limit 5",
 	}
 	return qs[vsym_Choose(tag+"-query", len(qs))]
 }
